@@ -1516,7 +1516,10 @@ class slc(exp):
         self.sf = x.sf
         if isinstance(x, slc):
             res = x[pos : pos + size]
-            x, pos = res.x, res.pos
+            if isinstance(res, slc):
+                x, pos = res.x, res.pos
+            # otherwise the inner slice folded into something else (a part of
+            # a comp, a constant): keep the slice of the slice, simplify resolves it
         self.x = x
         self.pos = pos
         self.etype = et_slc
